@@ -32,6 +32,7 @@ REACH = [
 def cfg_for(gated: set) -> pg.GenCfg:
     forms = pg.ALL_REEXPORT_FORMS
     cfg = pg.GenCfg()
+    cfg.shared_member_names = True
     cfg.twins = True
     cfg.reexport_forms = tuple(f for f in forms if f"reexport:{f}" not in gated)
     return cfg
